@@ -5,6 +5,7 @@ package main
 import (
 	"fmt"
 	"go/ast"
+	"go/constant"
 	"go/token"
 	"go/types"
 	"sort"
@@ -29,6 +30,7 @@ type mapEffects struct {
 	reads, writes, deletes []string // rendered key (and value) expressions
 	clears                 int
 	calls                  []string // methods called on the receiver
+	inlined                []string // unexported helpers whose effects are included
 }
 
 func runC14(c *Ctx, r *Rec) {
@@ -44,48 +46,140 @@ func runC14(c *Ctx, r *Rec) {
 	info := c.info("collection")
 	ms := c.methodsOf(mp)
 
-	effectsOf := func(fd *ast.FuncDecl) mapEffects {
+	// effects of a method on the receiver's Go map.  Unexported helper methods called on the
+	// receiver are stepped into, specialised on the constant truth values they are called with
+	// (lookup(key, false) never takes the branch guarded by its second parameter).
+	type bindT struct {
+		str map[types.Object]string
+		val map[types.Object]bool
+	}
+	var effectsIn func(fd *ast.FuncDecl, bd bindT, depth int) mapEffects
+	effectsIn = func(fd *ast.FuncDecl, bd bindT, depth int) mapEffects {
 		var e mapEffects
 		recv := recvObj(info, fd)
 		lhsIndex := map[*ast.IndexExpr]bool{}
-		ast.Inspect(fd.Body, func(x ast.Node) bool {
+		render := func(x ast.Expr) string {
+			if o := identObj(info, x); o != nil {
+				if s, ok := bd.str[o]; ok {
+					return s
+				}
+			}
+			return exprStr(x)
+		}
+		var constOf func(x ast.Expr) (bool, bool)
+		constOf = func(x ast.Expr) (bool, bool) {
+			x = ast.Unparen(x)
+			if tv, ok := info.Types[x]; ok && tv.Value != nil && tv.Value.Kind() == constant.Bool {
+				return constant.BoolVal(tv.Value), true
+			}
+			switch y := x.(type) {
+			case *ast.Ident:
+				if v, ok := bd.val[info.Uses[y]]; ok {
+					return v, true
+				}
+			case *ast.UnaryExpr:
+				if y.Op == token.NOT {
+					if v, ok := constOf(y.X); ok {
+						return !v, true
+					}
+				}
+			case *ast.BinaryExpr:
+				lv, lk := constOf(y.X)
+				rv, rk := constOf(y.Y)
+				switch y.Op {
+				case token.LAND:
+					if (lk && !lv) || (rk && !rv) {
+						return false, true
+					}
+					if lk && rk {
+						return true, true
+					}
+				case token.LOR:
+					if (lk && lv) || (rk && rv) {
+						return true, true
+					}
+					if lk && rk {
+						return false, true
+					}
+				}
+			}
+			return false, false
+		}
+		var walk func(n ast.Node)
+		visit := func(x ast.Node) bool {
 			switch s := x.(type) {
+			case *ast.IfStmt:
+				if v, known := constOf(s.Cond); known {
+					if s.Init != nil {
+						walk(s.Init)
+					}
+					if v {
+						walk(s.Body)
+					} else if s.Else != nil {
+						walk(s.Else)
+					}
+					return false
+				}
 			case *ast.AssignStmt:
 				for i, l := range s.Lhs {
 					if ix, ok := ast.Unparen(l).(*ast.IndexExpr); ok && isObj(info, ix.X, recv) {
 						lhsIndex[ix] = true
 						val := "?"
 						if len(s.Lhs) == len(s.Rhs) {
-							val = exprStr(s.Rhs[i])
+							val = render(s.Rhs[i])
 						}
-						e.writes = append(e.writes, exprStr(ix.Index)+":="+val)
+						e.writes = append(e.writes, render(ix.Index)+":="+val)
 					}
 				}
 			case *ast.IncDecStmt:
 				if ix, ok := ast.Unparen(s.X).(*ast.IndexExpr); ok && isObj(info, ix.X, recv) {
 					lhsIndex[ix] = true
-					e.writes = append(e.writes, exprStr(ix.Index)+"++")
+					e.writes = append(e.writes, render(ix.Index)+"++")
+				}
+			case *ast.IndexExpr:
+				if isObj(info, s.X, recv) && !lhsIndex[s] {
+					e.reads = append(e.reads, render(s.Index))
 				}
 			case *ast.CallExpr:
 				if isBuiltinCall(info, s, "delete") && len(s.Args) == 2 && isObj(info, s.Args[0], recv) {
-					e.deletes = append(e.deletes, exprStr(s.Args[1]))
+					e.deletes = append(e.deletes, render(s.Args[1]))
 				}
 				if isBuiltinCall(info, s, "clear") && len(s.Args) == 1 && isObj(info, s.Args[0], recv) {
 					e.clears++
 				}
 				if rx, mname, _, ok := methodCall(s); ok && isObj(info, rx, recv) {
-					e.calls = append(e.calls, mname)
+					hd := ms[mname]
+					if hd != nil && !ast.IsExported(mname) && hd.Body != nil && depth < 3 {
+						nb := bindT{map[types.Object]string{}, map[types.Object]bool{}}
+						ps := paramObjs(info, hd)
+						for i, a := range s.Args {
+							if i < len(ps) {
+								nb.str[ps[i]] = render(a)
+								if v, ok := constOf(a); ok {
+									nb.val[ps[i]] = v
+								}
+							}
+						}
+						he := effectsIn(hd, nb, depth+1)
+						e.reads = append(e.reads, he.reads...)
+						e.writes = append(e.writes, he.writes...)
+						e.deletes = append(e.deletes, he.deletes...)
+						e.clears += he.clears
+						e.calls = append(e.calls, he.calls...)
+						e.inlined = append(e.inlined, mname)
+					} else {
+						e.calls = append(e.calls, mname)
+					}
 				}
 			}
 			return true
-		})
-		ast.Inspect(fd.Body, func(x ast.Node) bool {
-			if ix, ok := x.(*ast.IndexExpr); ok && isObj(info, ix.X, recv) && !lhsIndex[ix] {
-				e.reads = append(e.reads, exprStr(ix.Index))
-			}
-			return true
-		})
+		}
+		walk = func(n ast.Node) { ast.Inspect(n, visit) }
+		walk(fd.Body)
 		return e
+	}
+	effectsOf := func(fd *ast.FuncDecl) mapEffects {
+		return effectsIn(fd, bindT{map[types.Object]string{}, map[types.Object]bool{}}, 0)
 	}
 	checkReceiverWrites(c, r, "D1-receiver-writes-persist", mp)
 	// transitive "mutating" closure over receiver calls
@@ -150,6 +244,9 @@ func runC14(c *Ctx, r *Rec) {
 			if !eqs(e.reads, pname(fd, 0)) {
 				return fmt.Sprintf("reads %v, required exactly [%s]", e.reads, pname(fd, 0))
 			}
+			if len(e.inlined) > 0 {
+				return fmt.Sprintf("skip: the read is made in the helper %v; the effects are as required, the provenance of the value returned is not followed through it", e.inlined)
+			}
 			return returnsReadOf(info, fd, pname(fd, 0))
 		},
 		"SetValue": func(fd *ast.FuncDecl, e mapEffects) string {
@@ -170,6 +267,9 @@ func runC14(c *Ctx, r *Rec) {
 			}
 			if !eqs(e.reads, pname(fd, 0)) {
 				return fmt.Sprintf("reads %v, required exactly [%s] (the value returned)", e.reads, pname(fd, 0))
+			}
+			if len(e.inlined) > 0 {
+				return fmt.Sprintf("skip: the read and the delete are made in the helper %v; the effects are as required, the guard of the delete and the provenance of the value returned are not followed through it", e.inlined)
 			}
 			// the delete must not be on the not-found edge only: it may be guarded by `exists` (true edge) or unguarded
 			if s := deleteGuardOK(c, info, fd); s != "" {
@@ -274,6 +374,9 @@ func runC14(c *Ctx, r *Rec) {
 		if _, ok := table[name]; ok {
 			continue
 		}
+		if !ast.IsExported(name) {
+			continue // unexported helpers are accounted for, specialised, where they are called
+		}
 		fd := ms[name]
 		e := effectsOf(fd)
 		bad := pure(fd, e)
@@ -287,11 +390,23 @@ func runC14(c *Ctx, r *Rec) {
 		}
 		recv := recvObj(info, fd)
 		env := &symEnv{info: info}
+		env.recvs = map[types.Object]bool{recv: true}
 		env.resolve = func(e ast.Expr) (Val, bool) {
-			if call, ok := e.(*ast.CallExpr); ok && isBuiltinCall(info, call, "len") && len(call.Args) == 1 && isObj(info, call.Args[0], recv) {
-				return Val{Lin: linSym("len")}, true
+			if call, ok := e.(*ast.CallExpr); ok && isBuiltinCall(info, call, "len") && len(call.Args) == 1 {
+				if o := identObj(info, call.Args[0]); o != nil && env.recvs[o] {
+					return Val{Lin: linSym("len")}, true
+				}
 			}
 			return Val{}, false
+		}
+		// sibling methods called on the receiver (IsEmpty through GetSize) are stepped into
+		env.inlinable = func(call *ast.CallExpr) *ast.FuncDecl {
+			if rx, mname, _, ok := methodCall(call); ok {
+				if o := identObj(info, rx); o != nil && env.recvs[o] {
+					return ms[mname]
+				}
+			}
+			return nil
 		}
 		env.base = Cube{linSym("len").scale(-1)}
 		paths := symRun(env, fd.Body)
